@@ -701,6 +701,124 @@ let mon_srv prop case impl =
     end
   | _ -> "fail:unparsable"
 
+(* ---- CONC: by the isolation argument every client's transfer is its own single-client transfer ---- *)
+let run_conc toks =
+  match toks with
+  | [_; flags; dup; tree; clients; sched] ->
+    let rootp = bytes_of_string "/R" in
+    let distinct = has_flag flags 'd' in
+    let sdir = rootp @ bytes_of_string (if distinct then "/snd" else "/srv") in
+    let rdir = rootp @ bytes_of_string (if distinct then "/rcv" else "/srv") in
+    let cfg = { v_single = has_flag flags 's'; v_ro = has_flag flags 'r'; v_over = has_flag flags 'o';
+                v_clean = not (has_flag flags 'k'); v_dup = n_of_dec dup; v_sdir = sdir; v_rdir = rdir } in
+    let root = ref (build_tree tree) in
+    let st = ref lstate_init in
+    let mem = n_of_dec "1000000000000" in
+    let cl = Array.of_list (String.split_on_char ';' clients) in
+    let results = Array.make (Array.length cl) "unfinished" in
+    let started = Array.make (Array.length cl) false in
+    let start i =
+      if not started.(i) then begin
+        started.(i) <- true;
+        let f = String.split_on_char ':' cl.(i) in
+        let upload = List.hd f = "U" in
+        let dg = bytes_of_hex (List.nth f 1) in
+        match listen_step cfg mem !root !st (n_of_int (i + 1)) dg with
+        | Ok (st', acts) ->
+          st := st';
+          let err = List.find_map (function AReply (_, Error (c, _)) -> Some c | _ -> None) acts in
+          (match err with
+           | Some c -> results.(i) <- "error:" ^ hex_of_bytes (encode (Error (c, []))  |> fun b -> List.filteri (fun k _ -> k < 4) b)
+           | None ->
+             (match List.find_opt (function ASpawnSend _ | ASpawnRecv _ -> true | _ -> false) acts with
+              | Some (ASpawnSend (path, o, rep, check)) ->
+                (match stat !root path with
+                 | Some (NFile content) ->
+                   let (datas, ph) = run_download o rep check content in
+                   let got = List.concat (List.filteri (fun k _ -> k mod (int_of_n rep) = 0) (List.map snd datas)) in
+                   results.(i) <- (match ph with SDone OutOk -> "got:" ^ fp_text got | _ -> "stalled:" ^ fp_text got)
+                 | _ -> results.(i) <- (if acts = [] || not (List.exists (function AReply _ -> true | _ -> false) acts) then "none" else "stalled:" ^ fp_text []))
+              | Some (ASpawnRecv (path, o, rep, clean)) when upload ->
+                let content = spec_content (List.nth f 2) in
+                (match create_file !root path [] with
+                 | Some r0 ->
+                   root := r0;
+                   let ((file, _), ph) = run_upload o rep clean content in
+                   (match file with Some fl -> (match create_file !root path fl with Some r1 -> root := r1 | None -> ()) | None -> root := remove_file !root path);
+                   results.(i) <- (match ph with RDone OutOk -> "acked" | _ -> "noack:?")
+                 | None -> results.(i) <- "noack:?")
+              | _ -> results.(i) <- "none"));
+          st := worker_ended !st (n_of_int (i + 1))
+        | _ -> results.(i) <- "LISTENER-DIED"
+      end in
+    let out = ref [] in
+    if sched <> "-" then
+      List.iter (fun t ->
+        if t.[0] = 'c' then start (int_of_string (String.sub t 1 (String.length t - 1)))
+        else if starts_with t "iL:" then
+          (* a well-formed non-request packet from an endpoint that owns no transfer: ERROR 4 from the listener *)
+          (match listen_step cfg mem !root !st (n_of_int 99) (bytes_of_hex (String.sub t 3 (String.length t - 3))) with
+           | Ok (_, acts) ->
+             out := (match List.find_map (function AReply (l, p) -> Some (l, p) | _ -> None) acts with
+                 | Some (l, p) -> "iL=" ^ hex_of_bytes (List.filteri (fun k _ -> k < 4) (encode p)) ^ "@" ^ (if l then "L" else "E")
+                 | None -> "iL=none") :: !out
+           | _ -> out := "iL=LISTENER-DIED" :: !out)
+        else if starts_with t "iT" then begin
+          let i = int_of_string (String.sub t 2 (String.index t ':' - 2)) in
+          if not started.(i) || results.(i) = "none" || starts_with results.(i) "error" then out := "iT=skipped" :: !out
+          else if cfg.v_single then
+            (* single-port: the datagram reaches the listener from a foreign source *)
+            (match listen_step cfg mem !root !st (n_of_int 99) (bytes_of_hex (String.sub t (String.index t ':' + 1) (String.length t - String.index t ':' - 1))) with
+             | Ok (_, acts) ->
+               out := (match List.find_map (function AReply (l, p) -> Some (l, p) | _ -> None) acts with
+                   | Some (l, p) -> "iT=" ^ hex_of_bytes (List.filteri (fun k _ -> k < 4) (encode p)) ^ "@" ^ (if l then "L" else "E")
+                   | None -> "iT=none") :: !out
+             | _ -> out := "iT=LISTENER-DIED" :: !out)
+          else
+            (* multi-port: the transfer socket is connected to its peer; the kernel drops other sources - or the endpoint is already closed *)
+            out := (if results.(i) = "none" || starts_with results.(i) "error" then "iT=skipped" else "iT=none") :: !out
+        end) (String.split_on_char ',' sched);
+    Array.iteri (fun i _ -> start i) cl;
+    let res = List.rev !out @ Array.to_list (Array.mapi (fun i r -> Printf.sprintf "c%d=%s" i r) results) in
+    String.concat " " (res @ ["tree=" ^ snapshot_tree !root])
+  | _ -> failwith "bad conc case"
+
+let mon_conc prop case impl =
+  match words case with
+  | [_; flags; _; tree; clients; _] ->
+    let distinct = has_flag flags 'd' in
+    let rootp = bytes_of_string "/R" in
+    let sdir = rootp @ bytes_of_string (if distinct then "/snd" else "/srv") in
+    let init = build_tree tree in
+    let toks = words impl in
+    let final_entries = match List.find_opt (fun t -> starts_with t "tree=") toks with Some t -> tree_entries t | None -> [] in
+    let cl = Array.of_list (String.split_on_char ';' clients) in
+    let fails = ref [] in
+    Array.iteri (fun i c ->
+      let f = String.split_on_char ':' c in
+      let res = match List.find_opt (fun t -> starts_with t (Printf.sprintf "c%d=" i)) toks with
+        | Some t -> String.sub t (String.length (string_of_int i) + 2) (String.length t - String.length (string_of_int i) - 2) | None -> "missing" in
+      if ends_with res "!origin" then fails := "datagram-from-an-unexpected-source-port" :: !fails;
+      match decode (bytes_of_hex (List.nth f 1)) with
+      | Ok (Rrq (name, _, _)) ->
+        (match stat init (join sdir (convert_file_path name)) with
+         | Some (NFile content) -> if res <> "got:" ^ fp_text content then fails := "download-is-not-its-own-file" :: !fails
+         | _ -> ())
+      | Ok (Wrq (name, _, _)) ->
+        let want = fp_text (spec_content (List.nth f 2)) in
+        let rdir = rootp @ bytes_of_string (if distinct then "/rcv" else "/srv") in
+        (match kernel_segs (join rdir (convert_file_path name)) with
+         | _ :: rel ->
+           if res <> "acked" then fails := "upload-not-completed" :: !fails
+           else if List.assoc_opt (String.concat "/" (List.map string_of_bytes rel)) final_entries <> Some want then fails := "uploaded-file-is-not-its-source" :: !fails
+         | [] -> ())
+      | _ -> ()) cl;
+    List.iter (fun t ->
+      if starts_with t "iL=" && t <> "iL=00050004@L" then fails := "foreign-packet-to-the-listener-not-answered-with-error-4" :: !fails;
+      if starts_with t "iT=" && not (t = "iT=none" || t = "iT=skipped" || t = "iT=00050004@L") then fails := "foreign-packet-to-a-transfer-endpoint-answered" :: !fails) toks;
+    (match !fails with [] -> "pass" | m :: _ -> "fail:" ^ m)
+  | _ -> "fail:unparsable"
+
 (* ---- CFG ---- *)
 let untok t = if t = "_" then [] else bytes_of_hex t
 let tok b = match b with [] -> "_" | _ -> hex_of_bytes b
@@ -953,6 +1071,7 @@ let run_mon (line : string) : string =
              | "send" :: _ -> mon_send prop case impl
              | "recv" :: _ -> mon_recv prop case impl
              | "srv" :: _ -> mon_srv prop case impl
+             | "conc" :: _ -> if prop = "C12" || prop = "C05" then mon_conc prop case impl else "skip"
              | "pair" :: _ -> if prop = "C04" || prop = "C14" || prop = "C16" then mon_pair prop case impl else "skip"
              | "cfgperm" :: _ -> if prop = "C17" then (match mon_cfgperm impl with "pass" -> mon_cfg_dup case impl | v -> v)
                                  else if prop = "C16" then mon_cfg_dup case impl else "skip"
@@ -972,6 +1091,7 @@ let run_line (line : string) : string =
   | "win" :: _ -> run_win toks
   | "srv" :: _ -> run_srv toks
   | "pair" :: _ -> run_pair toks
+  | "conc" :: _ -> run_conc toks
   | "cfg" :: _ -> run_cfg toks
   | "cfgperm" :: _ -> run_cfgperm toks
   | "ccfg" :: _ -> run_ccfg toks
